@@ -325,6 +325,14 @@ func c19Fixed(c *C) {
 		{"{% for x in lv %}{{ \"n\"|add:x|add:\";\" }}{% endfor %}", "nx;ny;nz;"},
 		{"{% macro m(a) %}{{ \"k\"|vprobe_a:a|vprobe_b:\"!\" }}{% endmacro %}{{ m(1) }}{{ m(2) }}", "b(a(k:1):!)b(a(k:2):!)"},
 		{"{{ mp[\"x\"|vprobe_a] }}", "subscripted"}, {"{{ lst[1|add:1] }}", "l2"}, {"{{ lst[q]|vprobe_a }}", "a(l3:)"},
+		// constructs re-entered while an outer activation is still open (recursive macros): every activation has its own chain
+		{"{% macro walk(n) %}{% filter vprobe_a:n|vprobe_b %}<{{ n }}{% if n > 0 %}{{ walk(n - 1) }}{% endif %}>{% endfilter %}{% endmacro %}{{ walk(2) }}",
+			"b(a(<2b(a(<1b(a(<0>:0):)>:1):)>:2):)"},
+		{"{% macro w2(n) %}{{ \"v\"|vprobe_a:n|vprobe_b }}{% if n > 0 %}[{{ w2(n - 1) }}]{% endif %}{{ \"w\"|vprobe_c:n }}{% endmacro %}{{ w2(1) }}",
+			"b(a(v:1):)[b(a(v:0):)c(w:0)]c(w:1)"},
+		{"{% macro w3(n) %}{% filter vprobe_a:n %}{% for i in lv %}{% if n > 0 and forloop.First %}{{ w3(n - 1) }}{% endif %}{{ i }}{% endfor %}{% endfilter %}{% endmacro %}{{ w3(1) }}",
+			"a(a(xyz:0)xyz:1)"},
+		{"-{{ -5|add:2 }}|{{ -2.5|add:1 }}|{{ 0 - 5|add:2 }}|{% if -5|add:2 == -7 %}y{% endif %}|{{ -lst|length }}", "--7|-3.500000|-7|y|-4"},
 		{"{% widthratio 1|add:1 4 100|add:100 %}", "100"}, {"{{ 5|vprobe_a|length }}", "5"}, {"{{ sv|length|vprobe_a }}", "a(11:)"},
 	}
 	for _, k := range cases {
